@@ -332,6 +332,19 @@ deriving Repr
 def Machine.push (m : Machine) (kind idx : Nat) (callee : Regs) : Machine :=
   { cs := m.cs ++ [⟨kind, idx, m.cur.prog, m.cur.ob, m.cur.pc⟩], cur := callee }
 
+/-- one slot of a program's function table as far as frames are concerned -/
+structure FunEnt where
+  name : String := "?"
+  runtimeIndex : Nat := 0
+deriving Repr, Inhabited
+
+/-- `apply_low`: the frame opened for slot `ei` of the function table `tbl` of the callee's program; on a cache hit and on
+    a cache miss the index stored into `csp->fr.table_index` is the expression transcribed from the source
+    (`Gen.C18.hitIndex` / `Gen.C18.missIndex`) -/
+def Machine.applyFrame (m : Machine) (hit : Bool) (tbl : List FunEnt) (ei : Nat) (callee : Regs) : Machine :=
+  let ri := (tbl.getD ei default).runtimeIndex
+  m.push frameFunction (if hit then hitIndex ei ri else missIndex ei ri) callee
+
 /-- `pop_control_stack` -/
 def Machine.pop (m : Machine) : Machine :=
   match m.cs.getLast? with
